@@ -271,15 +271,37 @@ def solve_vc(vc, timeout_ms):
     neg_goal = prepped[-1] if orig_vc.goal is not None else None
     has_q = any(_has_quant(p) for p in prepped)
     if has_q and vc.kind != 'cover':
-        # first pass: E-matching only (fast unsat); second pass below with MBQI for counter-models
-        s = z3.Solver()
-        s.set('timeout', timeout_ms)
-        s.set('smt.mbqi', False)
-        for p in vc.pc:
-            s.add(p)
-        s.add(neg_goal)
-        if s.check() == z3.unsat:
-            return 'proved', time.time() - t0, 'z3', None
+        # portfolio, short budgets first: E-matching only / default configuration (MBQI) / cvc5 -- most obligations are decided by one of
+        # them within a second, and which one varies; the full budget is spent only when all three short attempts were inconclusive
+        short = min(3000, timeout_ms)
+        for budget in ([short, timeout_ms] if timeout_ms > short else [timeout_ms]):
+            s = z3.Solver()
+            s.set('timeout', budget)
+            s.set('smt.mbqi', False)
+            for p in vc.pc:
+                s.add(p)
+            s.add(neg_goal)
+            if s.check() == z3.unsat:
+                return 'proved', time.time() - t0, 'z3', None
+            if budget == timeout_ms:
+                break
+            s = z3.Solver()
+            s.set('timeout', budget)
+            for p in vc.pc:
+                s.add(p)
+            s.add(neg_goal)
+            r = s.check()
+            if r == z3.unsat:
+                return 'proved', time.time() - t0, 'z3', None
+            if r == z3.sat:
+                return 'refuted', time.time() - t0, 'z3', s.model()
+            try:
+                from .backends import cvc5_check
+                r2, _dt2 = cvc5_check(s, budget)
+                if r2 == 'unsat':
+                    return 'proved', time.time() - t0, 'cvc5', None
+            except Exception:
+                pass
     s = z3.Solver()
     s.set('timeout', timeout_ms)
     for p in vc.pc:
